@@ -15,7 +15,10 @@ fn line(l: usize) -> Vec<u8> {
         1 => b"\n".to_vec(),
         2 => b"\r\n".to_vec(),
         _ => {
-            let mut v = b"INFO ".to_vec();
+            // a line that leaves a trace in the table (a PUBLIC record at an address derived from the line's length),
+            // so that a line which is silently dropped shows; lines too short for that are INFO lines
+            let head = format!("PUBLIC {l:x} 0 ");
+            let mut v = if l >= head.len() + 2 { head.into_bytes() } else { b"INFO ".to_vec() };
             v.resize(l - 1, b'x');
             v.push(b'\n');
             v
@@ -56,6 +59,38 @@ fn main() {
         all.extend(inputs(&rl3, 3));
         if thorough {
             all.extend(inputs(&[7, 10241, 40961, 81919], 4));
+        }
+        // a long line (> 64 KiB), then F bytes of short records, then another long line (all below 80 KiB): whatever
+        // capacity the buffer has reached and wherever the second long line starts in it, it fits
+        for first in [65_537usize, 70_000, 81_919] {
+            for filler in [0usize, 8 * 1024, 20 * 1024, 40 * 1024, 56 * 1024, 60 * 1024, 64 * 1024, 90 * 1024] {
+                for second in [65_537usize, 75_000, 81_919] {
+                    let mut d = line(first);
+                    let mut k = 0;
+                    while k + 31 <= filler {
+                        d.extend_from_slice(&line(31));
+                        k += 31;
+                    }
+                    d.extend_from_slice(&line(second));
+                    d.extend_from_slice(&line(31));
+                    all.push(Inp { label: format!("INFO line of {first}, {filler} bytes of 31-byte lines, INFO line of {second}, one more"), data: d, corrupt_at: None, final_newline: true, max_line: first.max(second) });
+                }
+            }
+        }
+        // the same with the amount of filler swept finely (every 1.5 KiB up to 200 KiB): the second long line starts at
+        // every region of the grown buffer
+        for step in 0..134usize {
+            let filler = step * 1536;
+            let (first, second) = (70_000usize, 81_919usize);
+            let mut d = line(first);
+            let mut k = 0;
+            while k + 31 <= filler {
+                d.extend_from_slice(&line(31));
+                k += 31;
+            }
+            d.extend_from_slice(&line(second));
+            d.extend_from_slice(&line(31));
+            all.push(Inp { label: format!("INFO line of {first}, {filler} bytes of 31-byte lines, INFO line of {second}, one more"), data: d, corrupt_at: None, final_newline: true, max_line: second });
         }
         let a = Arc::new(all);
         let (a1, a2) = (a.clone(), a.clone());
